@@ -41,7 +41,7 @@ PROP = {
                   "correspondence and the oracle, not proved.",
     "trivial_sig": r"^(handle(:novalue)?|malformed|(blob|lazy):h\d(:multi)?(:empty)?)$",
     "rule": "cases from one PRNG (VERIF_SEED). handle: 1-3 values (kept or with provider, two value types) on random endpoints of a triangle of real "
-            "connections, 4-34 steps biased to valid ones: send (a clone or the handle itself) over either connection of its endpoint and "
+            "connections, 4-34 steps biased to valid ones: send (a clone or the handle itself; one send in four inside a message of 5000 bytes with max_data_size 2048, handle ahead of the bulk, so that it is serialized twice and streamed) over either connection of its endpoint and "
             "receive at once or later, clone, drop, cast, as_ref/as_mut/into_inner on every endpoint, provider drop/keep, stale slots; then "
             "random drop order of everything; compared after every step: result class, value id read from the real value, and which "
             "destructors have run. lazy: LazyBlob (3/4) or Lazy<Vec<u8>> over 1-3 hops, chunk sizes 4..16384 and max_data_size 100..256|default "
